@@ -524,6 +524,10 @@ impl Transform {
                             if !in_ellipsis {
                                 return None;
                             }
+                            // The repetition is over. Its last, failed pass stopped at the
+                            // first exhausted variable; restart the cursors of the variables
+                            // it did not reach, so that a later use of them starts over.
+                            env.restart_cursors(template);
                             template_iter.next();
                         }
                     }
@@ -602,6 +606,22 @@ impl<'a> PatternEnvironment<'a> {
                 .iter()
                 .find(|it| it.0 == symbol)
                 .map(|it| it.1)
+        }
+    }
+
+    /// Restart Cursors
+    ///
+    /// Restart the cursor of every ellipsis variable that occurs in template.
+    fn restart_cursors(&mut self, template: &Cell) {
+        match template {
+            Cell::Symbol(_) => {
+                if let Some((_, iter)) = self.iters.iter_mut().find(|it| it.0 == template) {
+                    *iter = None;
+                }
+            }
+            Cell::Pair(_, _) => template.iter().for_each(|it| self.restart_cursors(it)),
+            Cell::Vector(vector) => vector.iter().for_each(|it| self.restart_cursors(it)),
+            _ => {}
         }
     }
 
